@@ -13,6 +13,9 @@ pub struct TermCfg {
     pub kinds: Vec<Kind>,
     /// weights: atom, var, nil, list, compound
     pub w: [u32; 5],
+    /// when set: a variable position is an anonymous `_` (a new id from this counter) with
+    /// probability 1/6
+    pub wild: Option<std::rc::Rc<std::cell::Cell<VarId>>>,
 }
 
 impl TermCfg {
@@ -25,6 +28,7 @@ impl TermCfg {
             improper: true,
             kinds: vec![Kind::Pair],
             w: [5, 6, 1, 4, 1],
+            wild: None,
         }
     }
     pub fn all_literals(vars: Vec<VarId>) -> TermCfg {
@@ -46,6 +50,7 @@ impl TermCfg {
             improper: true,
             kinds: Kind::ALL.to_vec(),
             w: [5, 6, 1, 4, 3],
+            wild: None,
         }
     }
 }
@@ -76,7 +81,14 @@ pub fn gen_term(s: &mut Source, cfg: &TermCfg, depth: usize) -> Term {
     }
     match s.weighted(&w) {
         0 => gen_atom(s, cfg),
-        1 => Term::Var(cfg.vars[s.below(cfg.vars.len())]),
+        1 => match &cfg.wild {
+            Some(c) if s.flag(42) => {
+                let id = c.get();
+                c.set(id + 1);
+                Term::Var(id)
+            }
+            _ => Term::Var(cfg.vars[s.below(cfg.vars.len())]),
+        },
         2 => Term::Nil,
         3 => {
             let n = 1 + s.below(cfg.max_len);
